@@ -111,8 +111,25 @@ def case_worker(case):
         if opts.get("tilde") and opts["out_exists"]:
             # the same existing file, spelled through the home directory
             argv[argv.index(out)] = "~/" + os.path.basename(out)
-        before = snapshot(tree)
-        r = run_observed(work, argv, cwd=tree, timeout=240, env_extra={"HOME": tree})
+        if opts.get("after_another"):
+            # the same gen call as the SECOND one of a process (SDK use: cdd.__main__.main / gen called once per model file): an earlier
+            # call on another input, with the same flags, must not change what this one writes
+            import json as _json
+            src0, _e0 = gen_input(random.Random(seed + 1), opts["typing"])
+            inp0 = os.path.join(tree, "earlier_mod.py")
+            open(inp0, "w").write(src0)
+            argv0 = list(argv[1:])
+            argv0[argv0.index(inp)] = inp0
+            argv0[argv0.index(out)] = os.path.join(tree, "earlier_generated" + os.path.splitext(out)[1])
+            drv = os.path.join(work, "two_calls.py")
+            open(drv, "w").write("import sys, json\nimport cdd.__main__ as M\ncalls = json.load(open(sys.argv[1]))\n"
+                                 "for a in calls[:-1]:\n    try:\n        M.main(a)\n    except BaseException:\n        pass\nM.main(calls[-1])\n")
+            _json.dump([argv0, argv[1:]], open(os.path.join(work, "calls.json"), "w"))
+            before = snapshot(tree)
+            r = run_observed(work, [drv, os.path.join(work, "calls.json")], mode="-f", cwd=tree, timeout=240, env_extra={"HOME": tree})
+        else:
+            before = snapshot(tree)
+            r = run_observed(work, argv, cwd=tree, timeout=240, env_extra={"HOME": tree})
         after = snapshot(tree)
         res["rc"] = r["rc"]
         res["err_tail"] = r["err"].strip().splitlines()[-1:] if r["rc"] else []
@@ -257,6 +274,14 @@ def gen_cases(ctx):
         for prepend in (2, 3):
             cases.append((rng.randrange(1 << 30), {"emit": emit, "parse": "class", "tpl": ["", "Cfg"], "infer_imports": True, "prepend": prepend,
                                                    "no_word_wrap": False, "out_exists": False, "tilde": False, "typing": "uniform"}))
+    # the same call as the second one of a process, with import inference (every entry needs `from typing import Optional`)
+    for emit in ("class", "argparse", "class"):
+        cases.append((rng.randrange(1 << 30), {"emit": emit, "parse": "class", "tpl": list(rng.choice(TPLS)), "infer_imports": True, "prepend": 0,
+                                               "no_word_wrap": False, "out_exists": False, "tilde": False, "typing": "uniform", "after_another": True}))
+    # the identity template on SQLAlchemy models whose table name is not the class name
+    for emit in ("class", "argparse"):
+        cases.append((rng.randrange(1 << 30), {"emit": emit, "parse": "infer", "tpl": ["", ""], "infer_imports": False, "prepend": 0,
+                                               "no_word_wrap": False, "out_exists": False, "tilde": False, "typing": False, "sql_input": "Base"}))
     for bases in ("Base", "TimestampMixin, Base", "Base, TimestampMixin"):
         cases.append((rng.randrange(1 << 30), {"emit": "class", "parse": "infer", "tpl": ["", "Cfg"], "infer_imports": False, "prepend": 0,
                                                "no_word_wrap": False, "out_exists": False, "tilde": False, "typing": False, "sql_input": bases}))
